@@ -122,6 +122,10 @@ func allLints(f *Func) []LintHit {
 		out = append(out, LintHit{"consumedarg", fmt.Sprintf("%s#consumed(%s:%s)", f.Name, x.Callee, x.Arg), x.Call.Pos(),
 			fmt.Sprintf("%s reads an entry of %s and deletes it, and is called here in a loop with the same %s on every iteration: the first call finds the entry, the later ones find nothing", x.Callee, x.Map, x.Arg)})
 	}
+	for _, x := range LastWinsFlags(f) {
+		out = append(out, LintHit{"lastwins", fmt.Sprintf("%s#lastwins(%s)", f.Name, x.Var.Name()), x.Assign.Pos(),
+			fmt.Sprintf("%s is assigned a value computed from the loop element on every iteration, is never tested inside the loop and is read after it: only the last element decides although the flag answers whether any (or every) element has the quality", x.Var.Name())})
+	}
 	for _, x := range WrongSides(f) {
 		out = append(out, LintHit{"wrongside", fmt.Sprintf("%s#side(%s)", f.Name, x.Has), x.Sel.Pos(),
 			fmt.Sprintf("a method of %s reads %s although the same struct has %s: the flag of the other side decides a matter of this side", types.ExprString(f.Decl.Recv.List[0].Type), x.Has, x.Twin)})
@@ -2913,4 +2917,87 @@ func isParamOf(f *Func, v *types.Var) bool {
 		}
 	}
 	return false
+}
+
+// LastWinsFlag is a boolean declared before a loop that the loop body overwrites, unconditionally and at its top
+// level, with a value computed from the loop element, that nothing inside the loop reads (so no break or
+// accumulation depends on it) and that is read after the loop: the answer for the last element replaces the answers
+// for all the others. The idioms of the tree are `if q(e) { flag = true; break }` and `flag = flag || q(e)`.
+type LastWinsFlag struct {
+	Var    *types.Var
+	Assign *ast.AssignStmt
+}
+
+func LastWinsFlags(f *Func) []LastWinsFlag {
+	info := f.Pkg.TypesInfo
+	var out []LastWinsFlag
+	ast.Inspect(f.Decl.Body, func(n ast.Node) bool {
+		rs, ok := n.(*ast.RangeStmt)
+		if !ok || rs.Body == nil {
+			return true
+		}
+		elems := map[types.Object]bool{}
+		for _, e := range []ast.Expr{rs.Key, rs.Value} {
+			if id, ok := e.(*ast.Ident); ok && id.Name != "_" {
+				if o := info.ObjectOf(id); o != nil {
+					elems[o] = true
+				}
+			}
+		}
+		if len(elems) == 0 {
+			return true
+		}
+		for _, st := range rs.Body.List {
+			as, ok := st.(*ast.AssignStmt)
+			if !ok || as.Tok != token.ASSIGN || len(as.Lhs) != 1 || len(as.Rhs) != 1 {
+				continue
+			}
+			id, ok := as.Lhs[0].(*ast.Ident)
+			if !ok {
+				continue
+			}
+			v, ok := info.ObjectOf(id).(*types.Var)
+			if !ok || v.IsField() || v.Pos() >= rs.Pos() || v.Pos() < f.Decl.Pos() {
+				continue
+			}
+			if b, ok := v.Type().Underlying().(*types.Basic); !ok || b.Kind() != types.Bool {
+				continue
+			}
+			usesElem, usesSelf := false, false
+			ast.Inspect(as.Rhs[0], func(m ast.Node) bool {
+				if i, ok := m.(*ast.Ident); ok {
+					if o := info.ObjectOf(i); o != nil {
+						if elems[o] {
+							usesElem = true
+						}
+						if o == v {
+							usesSelf = true
+						}
+					}
+				}
+				return true
+			})
+			if !usesElem || usesSelf {
+				continue
+			}
+			readIn, readAfter := false, false
+			ast.Inspect(f.Decl.Body, func(m ast.Node) bool {
+				i, ok := m.(*ast.Ident)
+				if !ok || info.ObjectOf(i) != v || i == id {
+					return true
+				}
+				if i.Pos() >= rs.Body.Pos() && i.End() <= rs.Body.End() {
+					readIn = true // read, tested or assigned again inside the loop: some other discipline is at work
+				} else if i.Pos() > rs.End() {
+					readAfter = true
+				}
+				return true
+			})
+			if !readIn && readAfter {
+				out = append(out, LastWinsFlag{v, as})
+			}
+		}
+		return true
+	})
+	return out
 }
